@@ -288,7 +288,16 @@ func isErrType(v reflect.Value) bool {
 
 func (fdef *reflectByField) set(v reflect.Value) error {
 	if fdef.f.Name != "" {
-		fdef.elem().FieldByIndex(fdef.f.Index).Set(v)
+		field := fdef.elem().FieldByIndex(fdef.f.Index)
+		if v.IsValid() && v.Type() != field.Type() && !v.Type().AssignableTo(field.Type()) {
+			// e.g. an int32 leaf arrives as a Go int, the field is an int32: convert, and
+			// refuse what the field cannot hold
+			var err error
+			if v, err = convertExact(v, field.Type()); err != nil {
+				return fmt.Errorf("%s - %w", fdef.m.Ident(), err)
+			}
+		}
+		field.Set(v)
 		return nil
 	}
 	if fdef.setter.Name != "" {
